@@ -152,3 +152,124 @@ Proof.
   rewrite kappa_weyl, weyl_neg_a, <- kappa_weyl, kappa_weyl_tt0.
   now replace (2 * (theta / 4)) with (theta / 2) by field.
 Qed.
+
+(* ------------------------------------------------------------------------------------ *)
+(* unitary local factors                                                                   *)
+(* ------------------------------------------------------------------------------------ *)
+
+Lemma inv_sqrt2_sq : / sqrt 2 * / sqrt 2 = / 2.
+Proof.
+  assert (0 < sqrt 2) by (apply sqrt_lt_R0; lra).
+  rewrite <- Rinv_mult. now rewrite sqrt2_sq.
+Qed.
+
+Lemma unitary_sI : unitary2 sI.
+Proof.
+  intros i j Hi Hj. destruct i as [|[|i]]; try lia; destruct j as [|[|j]]; try lia;
+  cbv [sI m2 Cmul Cadd Cconj C0 C1 fst snd]; f_equal; ring.
+Qed.
+
+Lemma unitary_Hn : unitary2 Hn.
+Proof.
+  intros i j Hi Hj. pose proof inv_sqrt2_sq as H. set (r := / sqrt 2) in *.
+  destruct i as [|[|i]]; try lia; destruct j as [|[|j]]; try lia;
+  cbv [Hn mscale Hm sI m2 Cmul Cadd Cconj Cscale Cneg C0 C1 fst snd]; fold r; f_equal; nra.
+Qed.
+
+Lemma unitary_Dph beta : unitary2 (Dph beta).
+Proof.
+  intros i j Hi Hj. pose proof (sin2_cos2 beta) as H. unfold Rsqr in H.
+  destruct i as [|[|i]]; try lia; destruct j as [|[|j]]; try lia;
+  cbv [Dph sI m2 Cmul Cadd Cconj C0 C1 fst snd]; f_equal; try ring; nra.
+Qed.
+
+(* scaling both outer factors *)
+Lemma mmul_scale r (A N B : mat) i j :
+  mmul (mmul (fun a b => Cscale r (A a b)) N) (fun a b => Cscale r (B a b)) i j
+  = Cscale (r * r) (mmul (mmul A N) B i j).
+Proof. cbv [mmul sum4 Cmul Cadd Cscale fst snd]. f_equal; ring. Qed.
+
+Lemma kron_sI_Hn i j : kron sI Hn i j = Cscale (/ sqrt 2) (kron sI Hm i j).
+Proof. cbv [kron Hn mscale Cmul Cscale fst snd]. f_equal; ring. Qed.
+
+Lemma rzx_kak_unitary theta i j : (i < 4)%nat -> (j < 4)%nat ->
+  rzx_mat theta i j = mmul (mmul (kron sI Hn) (kak_mat (- (theta / 2)) 0 0)) (kron sI Hn) i j.
+Proof.
+  intros Hi Hj. rewrite (rzx_kak theta i j Hi Hj). unfold mscale.
+  rewrite <- inv_sqrt2_sq, <- mmul_scale.
+  unfold mmul, sum4. now rewrite !kron_sI_Hn.
+Qed.
+
+Lemma rzx_local_conjugate theta : local_conjugate_of_kak (rzx_mat theta) (- (theta / 2)) 0 0.
+Proof.
+  exists sI, Hn, sI, Hn. repeat split; try apply unitary_sI; try apply unitary_Hn.
+  intros i j. apply rzx_kak_unitary.
+Qed.
+
+Lemma xxpyy_local_conjugate theta beta :
+  local_conjugate_of_kak (xxpyy_mat theta beta) (- (theta / 4)) (- (theta / 4)) 0.
+Proof.
+  exists (Dph beta), sI, (Dph (- beta)), sI. repeat split; try apply unitary_sI; try apply unitary_Dph.
+  intros i j. apply xxpyy_kak.
+Qed.
+
+Lemma xxmyy_local_conjugate theta beta :
+  local_conjugate_of_kak (xxmyy_mat theta beta) (- (theta / 4)) (theta / 4) 0.
+Proof.
+  exists (Dph beta), sI, (Dph (- beta)), sI. repeat split; try apply unitary_sI; try apply unitary_Dph.
+  intros i j. apply xxmyy_kak.
+Qed.
+
+(* ------------------------------------------------------------------------------------ *)
+(* with the oracle premise made explicit: kappa of the model's KAK path for the named gates *)
+(* ------------------------------------------------------------------------------------ *)
+
+Lemma rzx_oracle {L} (d : weyl L) theta :
+  weyl_equiv (weyl_coords d) (- (theta / 2), 0, 0) ->
+  kappaR (kak_basis_coeffsR d) = 1 + 2 * Rabs (sin theta).
+Proof. intros H. rewrite (kappa_weyl_equiv_basis d _ _ _ H). apply kappa_rzx_coords. Qed.
+
+Lemma xxpyy_oracle {L} (d : weyl L) theta :
+  weyl_equiv (weyl_coords d) (- (theta / 4), - (theta / 4), 0) ->
+  kappaR (kak_basis_coeffsR d) = 1 + 4 * Rabs (sin (theta / 2)) + 2 * (sin (theta / 2) * sin (theta / 2)).
+Proof. intros H. rewrite (kappa_weyl_equiv_basis d _ _ _ H). apply kappa_xxpyy_coords. Qed.
+
+Lemma xxmyy_oracle {L} (d : weyl L) theta :
+  weyl_equiv (weyl_coords d) (- (theta / 4), theta / 4, 0) ->
+  kappaR (kak_basis_coeffsR d) = 1 + 4 * Rabs (sin (theta / 2)) + 2 * (sin (theta / 2) * sin (theta / 2)).
+Proof. intros H. rewrite (kappa_weyl_equiv_basis d _ _ _ H). apply kappa_xxmyy_coords. Qed.
+
+(* the documented coordinates of the three KAK rows of the table are weyl_equiv to the proved ones *)
+Lemma Rabs_equiv x b c : weyl_equiv (Rabs x, b, c) (- x, b, c).
+Proof.
+  unfold Rabs. destruct (Rcase_abs x); [apply we_refl|apply we_mirror_a].
+Qed.
+
+Lemma doc_rzx_coords theta :
+  weyl_equiv (Rabs (Q2R (1 # 2) * theta), Rabs (Q2R (0 # 1) * theta), 0) (- (theta / 2), 0, 0).
+Proof.
+  replace (Q2R (1 # 2) * theta) with (theta / 2) by (unfold Q2R; simpl; field).
+  replace (Q2R (0 # 1) * theta) with 0 by (unfold Q2R; simpl; field). rewrite Rabs_R0.
+  apply Rabs_equiv.
+Qed.
+
+Lemma Rabs_equiv_b a x c : weyl_equiv (a, Rabs x, c) (a, - x, c).
+Proof.
+  eapply we_trans; [apply we_swap_ab|]. eapply we_trans; [apply Rabs_equiv|]. apply we_swap_ab.
+Qed.
+
+Lemma doc_xxpyy_coords theta :
+  weyl_equiv (Rabs (Q2R (1 # 4) * theta), Rabs (Q2R (1 # 4) * theta), 0) (- (theta / 4), - (theta / 4), 0).
+Proof.
+  replace (Q2R (1 # 4) * theta) with (theta / 4) by (unfold Q2R; simpl; field).
+  eapply we_trans; [apply Rabs_equiv|]. apply Rabs_equiv_b.
+Qed.
+
+Lemma doc_xxmyy_coords theta :
+  weyl_equiv (Rabs (Q2R (1 # 4) * theta), Rabs (Q2R (1 # 4) * theta), 0) (- (theta / 4), theta / 4, 0).
+Proof.
+  eapply we_trans; [apply doc_xxpyy_coords|].
+  assert (H : weyl_equiv (- (theta / 4), - (theta / 4), 0) (- (theta / 4), - - (theta / 4), 0)).
+  { eapply we_trans; [apply we_swap_ab|]. eapply we_trans; [apply we_mirror_a|]. apply we_swap_ab. }
+  now rewrite Ropp_involutive in H.
+Qed.
